@@ -116,7 +116,9 @@ def classify (o : Opts) (f : Facts) : Err → Option Finding
   | .e0432 =>
     if o.moduleConsts then some .moduleconsts_enum_alias
     else if o.modulesUnqualified && f.cppScope then some .modules_without_paths
-    else if f.cppScope && o.cNaming then some .cnaming_scoped_name else none
+    -- `pub use self::super::enum_T as T;` under --c-naming with both module options: the `root` module
+    -- itself is the scope the path leaves out, no namespace in the header needed
+    else if o.cNaming && (f.cppScope || o.modulesUnqualified) then some .cnaming_scoped_name else none
   | .e0308 => if f.hasUnion && f.bitfield && o.manuallyDrop then some .union_bitfield_manually_drop else none
   | .e0392 => if o.flexDst && f.flexArray then some .flexarray_dst_unused_param else none
   | .dupName => if f.tagTypedefSame then some .tag_typedef_collision else none
